@@ -25,19 +25,39 @@ def HTable.eraseIf (t : HTable) (p : Nat → Ent → Bool) : HTable :=
 
 /-- overwrite the session record stored under `h` (sessions are mutated in place in C++) -/
 def HTable.setSess (t : HTable) (h : Nat) (s : Sess) : HTable :=
-  t.map fun e => if e.1 == h then (match e.2 with | .sess _ => (e.1, Ent.sess s) | _ => e) else e
+  t.map fun e => (e.1, if e.1 == h then (match e.2 with | .sess _ => Ent.sess s | x => x) else e.2)
 
 /-- handle registered for object `oid` (the reverse map `objects`) -/
 def HTable.handleOf (t : HTable) (oid : Nat) : Option Nat :=
   (t.find? fun e => match e.2 with | .obj o => o.oid == oid | _ => false).map (·.1)
 
+/-- a session entry of `slot` -/
+def isSessOn (slot : Nat) : Ent → Bool
+  | .sess x => x.slot == slot
+  | _ => false
+
+/-- a read-only session entry of `slot` -/
+def isROSessOn (slot : Nat) : Ent → Bool
+  | .sess x => x.slot == slot && !x.rw
+  | _ => false
+
+/-- an object entry registered under session `h` (`Handle::hSession`) -/
+def ownedBy (h : Nat) : Ent → Bool
+  | .obj o => o.owner == h
+  | _ => false
+
+/-- an object entry of `slot` flagged private -/
+def privOn (slot : Nat) : Ent → Bool
+  | .obj o => o.slot == slot && o.isPriv
+  | _ => false
+
 /-- is any session of `slot` open? (`SessionManager::haveSession`) -/
 def HTable.haveSession (t : HTable) (slot : Nat) : Bool :=
-  t.any fun e => match e.2 with | .sess s => s.slot == slot | _ => false
+  t.any fun e => isSessOn slot e.2
 
 /-- is a read-only session of `slot` open? (`SessionManager::haveROSession`) -/
 def HTable.haveROSession (t : HTable) (slot : Nat) : Bool :=
-  t.any fun e => match e.2 with | .sess s => s.slot == slot && !s.rw | _ => false
+  t.any fun e => isROSessOn slot e.2
 
 /-- `HandleManager::allSessionsClosed(slot)` -/
 def HTable.allSessionsClosed (t : HTable) (slot : Nat) : HTable :=
@@ -49,12 +69,12 @@ def HTable.sessionClosed (t : HTable) (h : Nat) : HTable :=
   | none => t
   | some s =>
     let t1 := t.eraseIf fun k _ => k == h
-    let t2 := t1.eraseIf fun _ e => match e with | .obj o => o.owner == h | _ => false
+    let t2 := t1.eraseIf fun _ e => ownedBy h e
     if t2.haveSession s.slot then t2 else t2.allSessionsClosed s.slot
 
 /-- `HandleManager::tokenLoggedOut(slot)` -/
 def HTable.tokenLoggedOut (t : HTable) (slot : Nat) : HTable :=
-  t.eraseIf fun _ e => match e with | .obj o => o.slot == slot && o.isPriv | _ => false
+  t.eraseIf fun _ e => privOn slot e
 
 /-- `HandleManager::destroyObject(h)` -/
 def HTable.destroyObject (t : HTable) (h : Nat) : HTable :=
